@@ -45,9 +45,6 @@ func (r *run) assertPC(t *sym.Term) {
 
 // feasible asks whether pc ∧ t is satisfiable.
 func (r *run) feasible(t *sym.Term) sym.Result {
-	if t.IsTrue() {
-		return sym.Sat
-	}
 	if t.IsFalse() {
 		return sym.Unsat
 	}
@@ -233,6 +230,8 @@ type Violation struct {
 	Findings []string          `json:"findings,omitempty"`
 	Choices  map[string]int    `json:"choices,omitempty"`
 	Schedule []string          `json:"schedule,omitempty"`
+	PC       []string          `json:"path_condition,omitempty"`
+	Cond     string            `json:"failed_condition,omitempty"`
 }
 
 func (r *run) assume(cond *sym.Term) {
@@ -272,7 +271,7 @@ func (r *run) assert(cond *sym.Term, label string, fr *frame) {
 	case sym.Sat:
 		m := r.model()
 		r.closeQuery()
-		r.viol = &Violation{Kind: "assert", Label: label, Model: m, Stack: stackOf(fr)}
+		r.viol = &Violation{Kind: "assert", Label: label, Model: m, Stack: stackOf(fr), Cond: cond.String()}
 		panic(pathEnd{kind: "violation", msg: label})
 	}
 }
